@@ -192,20 +192,49 @@ where
             gate("trusted-sub-proof-against-other-commitment-key", &zk, &c_issuer, t_issuer.as_ref(), key, &bases, Some(&CL03CommitmentPublicKey::generate::<CS>(Some(pk.N.clone()), Some(n))), &hidden, "commitment key over the issuer modulus instead of the trusted party's".into())?;
         }
     }
+    // whole sub-proofs exchanged with those of a second honest issuance proof: same key, bases, positions and
+    // revealed values, other hidden values (hence another commitment); verified against the first commitment
+    if c.seed % 2 == 0 || c.leaf_edits == 0 {
+        let mut vals2 = vals.clone();
+        for &i in &hidden {
+            vals2[i] = attr_random(&mut st);
+        }
+        let msgs2: Vec<CL03Message> = vals2.iter().cloned().map(CL03Message::new).collect();
+        let com2 = Commitment::<CL03<CS>>::commit_with_pk(&msgs2, pk, &bases, Some(&hidden));
+        let cc2 = com2.cl03Commitment().clone();
+        let tc2 = if use_tp { Some(Commitment::<CL03<CS>>::commit_with_commitment_pk(&msgs2, tp.unwrap(), Some(&hidden)).cl03Commitment().clone()) } else { None };
+        if let Ok(zk2) = catch(|| ZKPoK::<CL03<CS>>::generate_proof(&msgs2, &cc2, tc2.as_ref(), pk, &bases, cpk, &hidden)) {
+            let j2 = serde_json::to_value(&zk2).unwrap();
+            for path in composite_nodes(&zk_json) {
+                let (Some(a), Some(b)) = (zk_json.pointer(&path), j2.pointer(&path)) else { continue };
+                if a == b {
+                    continue;
+                }
+                let mut j3 = zk_json.clone();
+                *j3.pointer_mut(&path).unwrap() = b.clone();
+                let Ok(z3) = serde_json::from_value::<ZKPoK<CL03<CS>>>(j3) else { continue };
+                rep.eval(ck, 1);
+                rep.class_n("sub-proofs-exchanged", 1);
+                if catch(|| z3.verify_proof(&c_issuer, t_issuer.as_ref(), pk, &bases, cpk, &hidden)).unwrap_or(false) {
+                    return rep.fail(
+                        ck,
+                        &format!("sub-proof-of-another-proof-still-verifies:{}", generic_path(&path)),
+                        format!("issuance proof with {} taken from an honest proof for other hidden values still verifies (hidden {:?} of {})", path, hidden, n),
+                        cj(json!({"node": path})),
+                    );
+                }
+            }
+        }
+    }
     // field-wise edits of every integer leaf of the proof
     let leaves = int_leaves(&zk_json);
     let edits = pick_edits(&leaves, c.leaf_edits, &mut st);
-    if c.leaf_edits == 0 || c.leaf_edits >= leaves.len() * 4 {
-        rep.exhaustive("every integer leaf of an issuance proof x {+1, -1, 0, sibling swap}".into());
+    if c.leaf_edits == 0 || c.leaf_edits >= leaves.len() * EDIT_KINDS as usize {
+        rep.exhaustive("every integer leaf of an issuance proof x {+1, -1, 0, sibling swap, high bit flipped, +2^k for k >= 128}".into());
     }
     for (li, e) in edits {
         let (path, val) = &leaves[li];
-        let nv = match e {
-            0 => (val + 1u32).complete(),
-            1 => (val - 1u32).complete(),
-            2 => Integer::new(),
-            _ => leaves[(li + 1) % leaves.len()].1.clone(),
-        };
+        let nv = edit_leaf(&leaves, li, e);
         if nv == *val {
             continue;
         }
@@ -215,7 +244,7 @@ where
         rep.eval(ck, 1);
         rep.class_n("leaf-edits", 1);
         if catch(|| z2.verify_proof(&c_issuer, t_issuer.as_ref(), pk, &bases, cpk, &hidden)).unwrap_or(false) {
-            let tag = ["+1", "-1", ":=0", ":=sibling"][e as usize];
+            let tag = EDIT_TAGS[e as usize];
             return rep.fail(
                 ck,
                 &format!("altered-field-still-verifies:{}", generic_path(path)),
@@ -285,7 +314,7 @@ pub fn run(ctx: &Ctx, rep: &Report) -> Meta {
         rule: "issuer key from a pool, n attributes, EVERY non-empty hidden set for n = 1..3 (quick) / 1..5 (thorough) plus generated (n <= 4/5, hidden set, attribute classes), with and without a trusted-party commitment (commitment key over its own modulus); \
                positive: verify_proof true (the issuer is given the commitment value only), proof survives JSON, blind_sign returns, the unblinded signature verifies on the full vector, re-issuing with a changed revealed attribute verifies on the new vector and not on the old; \
                negative: commitment to other attributes / C*b, another hidden set of the same size, other bases, other issuer key, wrong trusted commitment: verify_proof false AND blind_sign refuses; \
-               every integer leaf of the serialised proof perturbed by +1, -1, := 0, := sibling (16-24 sampled perturbations per proof in quick, all in thorough's fixed list): verify_proof false; \
+               every integer leaf of the serialised proof perturbed by +1, -1, := 0, := sibling, one high bit flipped, +2^k for k in {128, 160, 256, 300} (16-24 sampled perturbations per proof in quick, all in thorough's fixed list): verify_proof false; every composite node of the serialised proof (sub-proof, array, array element) replaced by the node at the same path of a second honest proof for other hidden values (same key, bases, positions), for every second case: verify_proof false; \
                n = 6 and 8 with first / last / all / alternating hidden sets; a proof without the trusted-party sub-proof presented to an issuer that requires one, a sub-proof checked against another commitment key; non-trivial = hidden set != {0} (the crate's only tested configuration); evaluations = verifier / issuer decisions"
             .into(),
         assumptions: vec!["blind_sign refuses by panicking (by design): observed under catch_unwind".into(), "CL2048/CL3072 in thorough only (fixture primes)".into()],
